@@ -86,12 +86,12 @@ class C10(HistoryProperty):
     NONTRIVIAL_MEASURE = "history_mixed_outcomes"
 
     def gen_case(self, rng, tier):
-        cfg = gen.swarm_cfg(rng, off=("shape_change",))
+        cfg = gen.swarm_cfg(rng, off=("shape_change",), on=("dsclass",))
         cfg["effect_params"] = rng.random() < 0.4  # effects that are Evaluatables reading options of their own
         spec = gen.gen_spec(rng, cfg)
         # bare combinators are targets too: a memoising dataset around them computes keys() for its fingerprint
         # during validate() and so hides a validate() that is weaker than keys()/evaluate()
-        inner = [n["id"] for n in spec["nodes"] if n["k"] in ("map", "coalesce", "switch", "case", "bind", "template", "apply", "withopts", "list", "opt")]
+        inner = [n["id"] for n in spec["nodes"] if n["k"] in ("map", "coalesce", "switch", "case", "bind", "template", "apply", "withopts", "list", "opt", "dsclass")]
         spec["roots"] = list(dict.fromkeys(spec["roots"] + rng.sample(inner, min(len(inner), rng.randint(0, 3)))))
         spec = gen.prune(spec)
         ops = gen_history(rng, cfg, spec, n_ops=rng.randint(3, 12))
@@ -120,10 +120,23 @@ class C10(HistoryProperty):
                 U.del_path(base, key)
                 node = rng.choice([ds] + spec["roots"])
                 at = rng.randrange(len(ops) + 1)
-                ops.insert(at, {"op": "evaluate", "node": node, "o": with_key, "calls": rng.choice(["v", "v", "k", "vk"]), "mut": "effect-key"})
+                first_calls = rng.choice(["v", "v", "k", "vk", "e", "vke"])
+                if rng.random() < 0.4:
+                    # ... and the second visit switches caching off through the dictionary: an entry stored by the first
+                    # visit must not make validate() pass where evaluate() recomputes (and runs the effect)
+                    U.set_path(base, rng.choice(["LABREA.CACHE.DISABLED", "LABREA.CACHE.DISABLE"]), True)
+                ops.insert(at, {"op": "evaluate", "node": node, "o": with_key, "calls": first_calls, "mut": "effect-key"})
                 ops.insert(at + 1, {"op": "evaluate", "node": node, "o": base, "mut": "effect-key-removed"})
             except (TypeError, AttributeError, KeyError):
                 pass
+        if rng.random() < 0.25:
+            # caching switched off (or explicitly on) through the dictionary on some visits
+            for op in ops:
+                if rng.random() < 0.3 and "LABREA" not in op["o"]:
+                    import copy
+
+                    op["o"] = copy.deepcopy(op["o"])
+                    U.set_path(op["o"], rng.choice(["LABREA.CACHE.DISABLED", "LABREA.CACHE.DISABLE"]), rng.random() < 0.8)
         for op in ops:
             if "calls" in op:
                 continue
